@@ -17,7 +17,7 @@ LOG=$(mktemp)
 res() { echo "$1" | tee -a $LOG; }
 # 1. demo passes without the patch
 cp $DEMO $WT/$DEMODIR/zz_seed_demo_test.go
-if go test -vet=off -count=1 -run 'SeedDemo' ./$DEMODIR/ >>$LOG 2>&1; then res "demo_without_patch=pass"; else res "demo_without_patch=FAIL"; fi
+if go test -vet=off -count=1 -run 'Seed' ./$DEMODIR/ >>$LOG 2>&1; then res "demo_without_patch=pass"; else res "demo_without_patch=FAIL"; fi
 rm $WT/$DEMODIR/zz_seed_demo_test.go
 # 2. patch applies, builds, suite passes
 if git apply $SRC/patch.diff >>$LOG 2>&1; then res "apply=ok"; else res "apply=FAIL"; fi
@@ -25,7 +25,7 @@ if go build ./... >>$LOG 2>&1; then res "build=ok"; else res "build=FAIL"; fi
 if go test -vet=off -count=1 ./... >>$LOG 2>&1; then res "suite_with_patch=pass"; else res "suite_with_patch=FAIL"; fi
 # 3. demo fails with the patch
 cp $DEMO $WT/$DEMODIR/zz_seed_demo_test.go
-if go test -vet=off -count=1 -run 'SeedDemo' ./$DEMODIR/ >>$LOG 2>&1; then res "demo_with_patch=PASS(unexpected)"; else res "demo_with_patch=fail(expected)"; fi
+if go test -vet=off -count=1 -run 'Seed' ./$DEMODIR/ >>$LOG 2>&1; then res "demo_with_patch=PASS(unexpected)"; else res "demo_with_patch=fail(expected)"; fi
 OK=1
 grep -q "demo_without_patch=pass" $LOG && grep -q "apply=ok" $LOG && grep -q "build=ok" $LOG && grep -q "suite_with_patch=pass" $LOG && grep -q "demo_with_patch=fail" $LOG || OK=0
 if [ $OK = 1 ]; then
